@@ -155,6 +155,9 @@ def run_impl_model(ctx):
 def run(ctx):
     run_unit_family(ctx)
     run_impl_model(ctx)
+    from . import strided
+    strided.run_project(ctx, 150 if ctx.quick else 3000)
+    strided.run_reduce(ctx, 200 if ctx.quick else 4000)
     n = 150 if ctx.quick else 2000
     reqs, meta = [], []
     for k in range(n):
